@@ -83,7 +83,7 @@ func (Scenario) Generate(rng *rand.Rand, focus, tier string) kernel.Plan {
 		case "export":
 			add("export")
 		case "stake":
-			add("stake", rng.Int63n(3), rng.Int63n(8), rng.Int63n(4), rng.Int63n(8), rng.Int63n(4), rng.Int63())
+			add("stake", rng.Int63n(3), rng.Int63n(8), rng.Int63n(5), rng.Int63n(12), rng.Int63n(5), rng.Int63())
 		}
 	}
 	add("block", 8, 0)
